@@ -31,7 +31,7 @@ var (
 	EditRetracts   = [][2]string{{"v1.0.0", "v1.0.0"}, {"v1.10.0", "v1.10.0"}, {"v1.2.0", "v1.2.0"}, {"v1.1.0", "v1.2.0"}, {"v1.1.0", "v1.3.0"}, {"v0.9.0", "v0.9.5"}}
 	EditTools      = []string{"a.com/x/cmd/t", "b.com/y/t2", "d.com/w/cmd/q"}
 	EditGodebugKey = []string{"k1", "k2", "k3"}
-	EditGodebugVal = []string{"0", "1", "2"}
+	EditGodebugVal = []string{"0", "1", "2", ""} // the empty value is a value too (`godebug k=`)
 	EditUseDirs    = []string{"./a", "./b", "../c", "./d e", "./f", "./g//h"}
 	EditGoVersions = []string{"1.9", "1.20", "1.21", "1.21.0", "1.22.1", "1.100", "1.22rc1", "1.20rc2"}
 	EditToolchains = []string{"go1.21.0", "go1.22.1", "default"}
